@@ -1801,6 +1801,8 @@ func (d *delegation) saveRewardData(epoch uint32, rewardsData *RewardComputation
 func (d *delegation) computeAndUpdateRewards(callerAddress []byte, delegator *DelegatorData) error {
 	if len(delegator.ActiveFund) == 0 {
 		// nothing to calculate as no active funds - all were computed before
+		// the epochs passed without active funds must not be rewarded after a new delegation
+		delegator.RewardsCheckpoint = d.eei.BlockChainHook().CurrentEpoch() + 1
 		return nil
 	}
 
